@@ -187,6 +187,10 @@ AXIOM_ALLOW = {
     "ClassicalDedekindReals.sig_forall_dec", "ClassicalDedekindReals.sig_not_dec",
     "FunctionalExtensionality.functional_extensionality_dep", "Classical_Prop.classic",
 }
+# Coq's primitive machine types/operations (kernel primitives, printed by Print Assumptions; bare when their module is imported)
+PRIMS = set("float int opp abs add sub mul div sqrt eqb ltb leb compare classify of_uint63 of_int63 normfr_mantissa frshiftexp ldshiftexp next_up next_down "
+            "lsl lsr land lor lxor mod mulc addc addcarryc subc subcarryc diveucl diveucl_21 addmuldiv head0 tail0 asr divs mods ltsb lesb compares "
+            "float_spec_* uint63_spec_*".split())
 FORBIDDEN = re.compile(r"\b(Admitted|admit|Axiom|Axioms|Parameter|Parameters|Conjecture|Unset\s+Guard|bypass_check|type-in-type|impredicative-set|Admit\s+Obligations)\b")
 
 def strip_comments(src):
@@ -304,7 +308,8 @@ def proof_step(pid, tier="quick"):
         if nm not in amap:
             res["theorems"].append((nm, None, False))
             continue
-        bad = [a for a in amap[nm] if a not in AXIOM_ALLOW and not a.startswith(("PrimFloat.", "Uint63.", "FloatAxioms.", "Uint63Axioms.", "PrimInt63.", "FloatOps.", "SpecFloat."))]
+        bad = [a for a in amap[nm] if a not in AXIOM_ALLOW and a not in PRIMS
+               and not a.startswith(("PrimFloat.", "Uint63.", "FloatAxioms.", "Uint63Axioms.", "PrimInt63.", "FloatOps.", "SpecFloat."))]
         ok = not bad
         if bad:
             res["errors"].append("theorem %s depends on non-allow-listed axioms %s" % (nm, bad))
